@@ -391,12 +391,15 @@ class WorkerPool:
             self._perform_spawn(reply)
             # we are concurrent with trigger_shutdown and spawn
             with self._running_lock:
-                if self._shuttingdown:
-                    break
                 # Only clear if _try_send_to_primary_thread has not
                 # yet set the next self._primary_thread_task reply
-                # after waiting for this one to complete.
+                # after waiting for this one to complete.  A task that
+                # was handed over meanwhile has been accepted by spawn()
+                # and must still run, even if a shutdown was triggered
+                # since: only leave when the mailbox holds nothing new.
                 if reply is self._primary_thread_task:
+                    if self._shuttingdown:
+                        break
                     primary_thread_task_ready.clear()
 
     def trigger_shutdown(self) -> None:
